@@ -546,3 +546,46 @@ def slicemut_invalid(shapes, L, seed):
             for entry in SORT_ENTRIES[:3]:
                 out.append(Scenario(sh, base + [f"sort r0 {entry} mod=3 range={n}:{n + 1}", f"sort r0 {entry} mod=3 range=1:0", "len r0"], "sort-invalid-range"))
     return out
+
+
+# ------------------------------------------------------------------ panics in user callbacks (C16)
+
+AFTER = ["len r0", "push r0 29", "pop r0", "retain r0 keep=1", "len r0"]
+
+
+def fault_scenarios(shapes, L, seed):
+    """for every callback-taking operation, every invocation index k of the callback as the panic point,
+    followed by an audit and further operations (and the final drop of everything)"""
+    rng = random.Random(seed)
+    retain, others = [], []
+    for sh in shapes:
+        cl = sh not in NOCLONE
+        nl = NLEAVES[sh]
+        for n in range(L + 1):
+            ts = [(3 * i + 1) % 32 for i in range(n)]
+            base = [f"collect r0 {tl(ts)}"]
+            # retain / retain_mut: the callback is called n times
+            for k in range(n + 1):
+                for mask in (("1" * n), ("0" * n), "".join("10"[(i + k) % 2] for i in range(n)), "".join(rng.choice("01") for _ in range(n))):
+                    retain.append(Scenario(sh, base + [f"retain r0 keep={mask} panic={k}"] + AFTER, "retain-fault"))
+                    retain.append(Scenario(sh, base + [f"retain_mut r0 keep={mask} panic={k} wleaf={k % nl} wtag=17"] + AFTER, "retain_mut-fault"))
+            # sorts: comparator / key function / the user's Ord; the number of calls depends on std's algorithm:
+            # every k up to a generous bound (a fuse that is never reached simply does not fire)
+            for entry in SORT_ENTRIES:
+                for k in range(0, 2 * n + 3):
+                    if entry == "sort":
+                        others.append(Scenario(sh, base + [f"cmpfuse {k}", "sort r0 sort"] + AFTER, "sort-fault"))
+                    else:
+                        others.append(Scenario(sh, base + [f"sort r0 {entry} mod=3 panic={k}"] + AFTER, "sort-fault"))
+            # user Clone: to_vec, resize, extend_from_slice, Extend<Ref>, to_owned
+            for k in range(0, nl * (n + 2) + 1):
+                if cl:
+                    others.append(Scenario(sh, base + [f"clonefuse {k}", "to_vec r0 r1", "len r1"] + AFTER, "to_vec-fault"))
+                    others.append(Scenario(sh, base + [setup(2, "r1", 20), f"clonefuse {k}", "extend_refs r1 r0", "len r1", "push r1 28"] + AFTER, "extend_refs-fault"))
+                    # (known findings KF-C16-*: the container may be left desynchronised; nothing is run on it afterwards
+                    #  except the final drop, because debug builds would only cascade assertion failures)
+                    others.append(Scenario(sh, base + [f"clonefuse {k}", f"resize r0 {n + 3} 27"], "resize-fault"))
+                    others.append(Scenario(sh, base + [setup(2, "r1", 20), f"clonefuse {k}", "extend_from_slice r1 r0"], "extend_from_slice-fault"))
+                if n > 0 and k <= nl:
+                    others.append(Scenario(sh, base + [f"clonefuse {k}", f"refs r0 to_owned {n - 1}"] + AFTER, "to_owned-fault"))
+    return retain, others
